@@ -25,21 +25,32 @@ def _digest(key):
 
 
 _RECENT = collections.deque(maxlen=40)  # the last worlds this worker process ran: (cfg, history)
-_PRELUDE_TRIES = collections.Counter()
+_TRIES = collections.Counter()
+_DONE = set()
 
 
-def _attach_prelude(modname, cfg, hist, ev, viols):
+def _verify_in_isolation(modname, cfg, hist, ev, viols):
     """A worker is a long-lived process: what an earlier world left behind in process-wide state of the library
     can make a later history fail (or hide its failure).  A failing history is therefore re-run in a fresh
-    interpreter at once; if it holds there, the recent worlds of this worker are tried as a prelude.  The case
-    then carries its prelude and is confirmed as [prelude, case] in a fresh interpreter (core.finish)."""
-    case = {"cfg": cfg, "hist": list(hist) + [list(ev)]}
+    interpreter at once.  Returns (status, prelude):
+      "isolated"       it fails on its own                                  -> reported as it is
+      "prelude"        it fails only after one of this worker's recent worlds -> reported with that prelude
+      "represented"    the same signature was already verified by this worker -> not reported again
+      "unreproducible" it holds in a fresh interpreter, no prelude found     -> counted, not reported
+    """
     key = viols[0][0]
-    if _PRELUDE_TRIES[key] >= 2:
-        return None
-    _PRELUDE_TRIES[key] += 1
+    if key in _DONE:
+        return "represented", None
+    if _TRIES[key] >= 6:
+        return "unreproducible", None
+    _TRIES[key] += 1
+    case = {"cfg": cfg, "hist": [list(e) for e in hist] + [list(ev)]}
     recent = [{"cfg": c, "hist": [list(e) for e in h]} for c, h in _RECENT if (c, h) != (cfg, tuple(hist) + (tuple(ev),))]
-    return core.find_prelude(modname, case, recent, max_tries=16)
+    pre = core.find_prelude(modname, case, recent, max_tries=8)
+    if pre is None:
+        return "unreproducible", None
+    _DONE.add(key)
+    return ("prelude", pre) if pre else ("isolated", None)
 
 
 def _expand_task(args):
@@ -62,13 +73,16 @@ def _expand_task(args):
             for r in rs:
                 agg[r["outcome"]] += 1
                 steps += r.get("steps", len(hist) + 1)
-                prelude = None
-                if r["viol"]:
+                prelude, viols, unrep = None, r["viol"], 0
+                if viols:
                     try:
-                        prelude = _attach_prelude(modname, cfg, hist, r["ev"], r["viol"])
+                        status, prelude = _verify_in_isolation(modname, cfg, hist, r["ev"], viols)
                     except BaseException:  # noqa
-                        prelude = None
-                compact.append((r["ev"], _digest(r["key"]), bool(r.get("nontrivial")), bool(r.get("stop")), r["viol"], prelude))
+                        status = "unreproducible"
+                    if status in ("represented", "unreproducible"):
+                        unrep = 1 if status == "unreproducible" else 0
+                        viols = []
+                compact.append((r["ev"], _digest(r["key"]), bool(r.get("nontrivial")), bool(r.get("stop") or unrep), viols, prelude, unrep, bool(r["viol"])))
                 _RECENT.append((cfg, tuple(tuple(e) for e in hist) + (tuple(r["ev"]),)))
             out.append((ci, hist, compact, None))
     finally:
@@ -117,8 +131,12 @@ def run_bfs(modname, configs, st, max_depth, max_states, deadline_s, chunk=24, n
                         st.extra.setdefault("harness_errors", []).append(err)
                         continue
                     cfg = configs[ci]
-                    for ev, k, nontriv, stop, viols, prelude in results:
+                    for ev, k, nontriv, stop, viols, prelude, unrep, failed in results:
                         st.transitions += 1
+                        if failed:
+                            st.extra["failing_transitions_seen_by_workers"] = st.extra.get("failing_transitions_seen_by_workers", 0) + 1
+                        if unrep:
+                            st.extra["failures_not_reproducible_in_a_fresh_interpreter"] = st.extra.get("failures_not_reproducible_in_a_fresh_interpreter", 0) + 1
                         for sig, oracle, exp, obs in viols:
                             case = {"cfg": cfg, "hist": list(hist) + [ev]}
                             if prelude:
